@@ -344,5 +344,5 @@ func TestC02(t *testing.T) {
 			r.Report("cert", c, wrap(c))
 		}
 	}
-	core.Rapid(r, "cert", r.Pick(2500, 100000), genC02, wrap)
+	core.Rapid(r, "cert", r.Pick(2500, 400000), genC02, wrap)
 }
